@@ -203,7 +203,7 @@ theorem timerInv_handleMsgs (ms : List Msg) (e : Ep) (hi : TimerInv e) : TimerIn
     unfold handleMsgs
     split
     · exact hi
-    · exact ih _ (timerInv_handleMsg e m hi)
+    · exact ih _ (timerInv_handleMsg _ m (timerInv_of_view (e := e) rfl hi))
 
 theorem timerInv_step (e : Ep) (ev : Ev) (hi : TimerInv e) : TimerInv (step e ev).1 := by
   unfold step
